@@ -483,7 +483,7 @@ func errReleasers(c *core.Ctx, sum map[*ssa.Function]*relInfo) map[*ssa.Function
 		if res.Len() == 0 || res.At(res.Len()-1).Type().String() != "error" {
 			continue
 		}
-		for _, cl := range fn.AnonFuncs {
+		for _, cl := range closuresOf(fn) {
 			deferred := false
 			for _, call := range core.Calls(fn) {
 				if d, ok := call.(*ssa.Defer); ok {
